@@ -10,7 +10,9 @@
    every step that breaks the contract as a CANDIDATE (field kind, length class relative to the position)
    -> scaled to 64-bit length prefixes by the harness.
 3. vh-load proto: valid ONNX documents with every length prefix replaced by the boundary classes and the TLC
-   candidates, truncations, byte flips, random bytes, over-long varints, deep nesting, and the STRADDLE family
+   candidates, truncations, byte flips, random bytes, over-long varints, deep nesting, the INFLATED-CHAIN family (one
+   field declares 2^31 .. 2^64-1 bytes and every enclosing message is inflated consistently, so only the real input
+   is short; every field kind incl. packed numeric data, raw_data, strings, messages) and the STRADDLE family
    (a 2..10-byte tag / varint value / length / packed element that starts inside an embedded message or packed
    field and ends after its declared end, at every nesting level of the schema, with further bytes behind);
    every input decoded with a tracing reader beneath the crate's LimitReader (buffer, file, sniffing) and
@@ -18,7 +20,9 @@
    harness: cargo profile `release` (overflow checks off) and `checked` (release + overflow-checks +
    debug-assertions; a sample of the random families, all structured families).
 4. Trace_Proto.tla validates both recorded traces: the ProtoContract predicates decide; the build profile is
-   part of every signature. A decode that returns a message for a straddle input is reported as DRIFT."""
+   part of every signature. A decode that returns a message for a straddle input is reported as DRIFT; so is a run
+   whose largest single allocation (recorded by a counting global allocator in the child) exceeds
+   ProtoContract!AllocBound(n) without ending in an abort or panic."""
 import json
 import os
 
@@ -160,6 +164,11 @@ def finish(ctx, runs, ncand):
                   "returned a message (the reader lets the varint through and only then reports the end); a strict "
                   "reader (ProtoReader.tla: nothing succeeds beyond a limit) predicts an error - allowed by the "
                   "property (message or error), reported as drift" % st["straddle_accepted"])
+    if st.get("alloc_over", 0):
+        ctx.drift("%d run(s) requested a single allocation larger than ProtoContract!AllocBound(n) = 64n + 4 MiB: memory "
+                  "reserved in proportion to a declared length rather than to the bytes present (not a violation of the "
+                  "property text unless it ends in an abort or panic)" % st["alloc_over"])
+    ctx.cov["runs_over_alloc_bound"] = st.get("alloc_over", 0)
     if st.get("load_unattributed", 0):
         ctx.cov["notes"].append("%d Model::load runs failed (panic/abort/timeout) without a decoder-level cause; "
                                 "not judged here (C05 judges the loader)" % st["load_unattributed"])
@@ -181,7 +190,8 @@ def finish(ctx, runs, ncand):
         rule="evaluations = (input, api, build) runs, 7 apis per input, 2 builds (release; checked = release + "
              "overflow-checks + debug-assertions, on a sample of the random families); inputs = byte strings: 6 valid "
              "ONNX documents x every length-delimited field x (23 boundary length classes + TLC candidates), "
-             "truncations, byte flips, random, over-long varints, deep nesting, and the straddle family (19 message "
+             "truncations, byte flips, random, over-long varints, deep nesting, consistently inflated chains of nested lengths "
+             "(every site x 2^31..2^64-1, ancestors agree), and the straddle family (19 message "
              "paths + 3 packed fields x tag/value/length/element x widths x split points x parent covers or not); "
              "non-trivial = mutated/truncated/special inputs and other inputs of >= 8 bytes",
         assumptions=[
